@@ -444,6 +444,68 @@ def case_sideband(acc: Acc, msgs):
             rp(case_sideband, [list(m) for m in msgs]))
 
 
+# --------------------------------------------------------------------------- (e2) report-status inside a side-band stream
+
+REPORTS = [
+    [b"unpack ok\n", b"ok refs/heads/a\n"],
+    [b"unpack ok\n", b"ok refs/heads/a\n", b"ng refs/heads/b failed to update ref\n"],
+    [b"unpack ok\n", b"ng refs/heads/\xc3\xa9 some reason\n", b"ok refs/tags/t\n", b"ok refs/heads/c\n"],
+    [b"unpack ok\n"],
+]
+
+
+def case_report_tail(acc: Acc, ridx, cuts, progress_mask, sideband):
+    """The client's decoder of a receive-pack answer: the report (inner pkt-lines + flush) is carried by side-band
+    data packets cut at `cuts` (any inner offset, so an inner pkt-line may straddle two outer packets), optionally with
+    a progress packet before each data packet (progress_mask), or sent plainly (sideband=False)."""
+    P, GPE, Hangup = _imports()
+    from dulwich.client import GitClient, ReportStatusParser
+
+    report = REPORTS[ridx]
+    inner = b"".join(P.pkt_line(x) for x in report) + b"0000"
+    out = BytesIO()
+    w = P.Protocol(None, out.write)
+    if sideband:
+        pieces = [inner[a:b] for a, b in zip((0,) + tuple(cuts), tuple(cuts) + (len(inner),))]
+        for i, piece in enumerate(pieces):
+            if progress_mask >> i & 1:
+                w.write_sideband(2, b"progress %d\n" % i)
+            w.write_sideband(1, piece)
+        w.write_pkt_line(None)
+    else:
+        out.write(inner)
+    acc.count("report_tail_cases")
+    want = {}
+    for line in report[1:]:
+        st, rest = line.strip().split(b" ", 1)
+        if st == b"ok":
+            want[rest] = None
+        else:
+            name, why = rest.split(b" ", 1)
+            want[name] = why.decode()
+    c = GitClient.__new__(GitClient)
+    c._report_status_parser = ReportStatusParser()
+    c.protocol_version = 0
+    r = P.Protocol(BytesIO(out.getvalue()).read, None)
+    caps = {b"report-status"} | ({b"side-band-64k"} if sideband else set())
+    seen = []
+    rpl = rp(case_report_tail, ridx, list(cuts), progress_mask, sideband)
+    what = "report %d cut at %r progress-mask %d sideband=%s" % (ridx, cuts, progress_mask, sideband)
+    try:
+        got = c._handle_receive_pack_tail(r, caps, seen.append)
+    except Exception as e:
+        acc.outcome("report-tail:raises")
+        acc.violation("report-status:client-decoder-raises:%s" % type(e).__name__, "%s: %r" % (what, e), rpl)
+        return
+    ok = got == want
+    acc.outcome("report-tail:" + ("ok" if ok else "bad"))
+    if not ok:
+        acc.violation("report-status:client-decodes-a-different-report", "%s: got %r, sent %r" % (what, got, want), rpl)
+    nprog = bin(progress_mask & ((1 << (len(cuts) + 1)) - 1)).count("1") if sideband else 0
+    if len(seen) != nprog:
+        acc.violation("report-status:progress-messages-lost-or-invented", "%s: %d progress callbacks, %d sent" % (what, len(seen), nprog), rpl)
+
+
 # --------------------------------------------------------------------------- (f) pack stream trailer
 
 
@@ -581,6 +643,9 @@ def work(task):
     elif kind == "sideband":
         for msgs in items:
             case_sideband(acc, msgs)
+    elif kind == "report":
+        for ridx, cuts, mask, sb in items:
+            case_report_tail(acc, ridx, cuts, mask, sb)
     elif kind == "packstream":
         for cuts in items:
             for zbuf in params:
@@ -654,6 +719,18 @@ def run(ctx):
                 sb.append(tuple(zip(chans, sizes)))
     for part in split(ctx.order(sb), J):
         tasks.append(("sideband", part, None))
+    # (e2) the report-status answer cut into 1..3 side-band data packets at every inner offset, x progress packets in between
+    rep = []
+    for ridx, report in enumerate(REPORTS):
+        n = sum(4 + len(x) for x in report) + 4
+        rep.append((ridx, (), 0, False))
+        cs = [()] + [(c,) for c in range(1, n)] + (list(itertools.combinations(range(1, n), 2)) if (not q or n <= 40) else
+                                                    [(a, b_) for a in range(1, n, 3) for b_ in range(a + 1, n, 5)])
+        for cuts in cs:
+            for mask in range(1 << (len(cuts) + 1)) if len(cuts) < 2 else (0, 2, 7):
+                rep.append((ridx, cuts, mask, True))
+    for part in split(ctx.order(rep), J):
+        tasks.append(("report", part, None))
     # (f)
     data, _ = _small_pack()
     L = len(data)
